@@ -142,6 +142,15 @@ check("C18", "runtime monitoring: creation-time snapshot table for every State/A
       "Trusted: law definitions in the check; lists passed by the caller to a constructor are outside 'through the API'.",
       "DESIGN.md 4 C18")
 
+check("C19", "runtime monitoring: post-condition and exception-path wrapper on Display (rebound in every namespace) - drawable "
+      "result, unchanged circuit fingerprint, DisplayError for invalid options - over seeded random circuit trees x both "
+      "back-ends x option tuples",
+      "Held on the circuits and option tuples explored (hidden ancillas, heralded groups, swaps and beam splitters across "
+      "ancillas, split unitary blocks, loss, barriers, labelled parameters, 1-mode circuits): both back-ends returned a "
+      "drawing, the circuit was unchanged, wrong-length labels and unknown display types raised DisplayError.",
+      "Trusted: 'drawable' = serialisable drawsvg.Drawing / (Figure, Axes); pixel content is not judged.",
+      "DESIGN.md 4 C19")
+
 NOT_APPLICABLE = []
 _EXPLICIT_NA = {}
 for line in open("/verif/properties.jsonl"):
